@@ -56,9 +56,11 @@ package cbe
 //@   ensures ReaderOK(_this) && _this.bytesRead == 0 && _this.reader.reader == reader
 
 //@ func (*Reader).expandBufferTo
-//@   requires len(_this.buffer) >= 16 && 0 <= minSize && minSize <= 0x1000000000
+//@   requires len(_this.buffer) >= 16 && 0 <= minSize
 //@   modifies _this.buffer, alloc
+//@   runtime_panics
 //@   ensures len(_this.buffer) >= 16 && len(_this.buffer) >= minSize
+//@   xensures minSize > 0x8000000000
 //@   ensures _this.buffer == old(_this.buffer) || fresh(_this.buffer)
 
 //@ func (*Reader).ReadUint8
@@ -79,11 +81,11 @@ package cbe
 
 //@ func (*Reader).readIntoBuffer
 //@   use RPATH(_this)
-//@   requires 0 <= count && count <= 0x1000000000
+//@   requires 0 <= count
 //@   modifies _this.buffer, alloc
 //@   ensures pos == old(pos) + uint64(count) && _this.bytesRead == old(_this.bytesRead) + uint64(count) && len(_this.buffer) >= count
 //@   ensures forall i uint64 :: i < uint64(count) ==> _this.buffer[i] == in[old(pos)+i]
-//@   xensures inLen - old(pos) < uint64(count) || rfailed || old(_this.bytesRead) + uint64(count) > DocLimit(_this)
+//@   xensures inLen - old(pos) < uint64(count) || rfailed || old(_this.bytesRead) + uint64(count) > DocLimit(_this) || count > 0x8000000000
 //@   loop 0 modifies pos, rfailed, zeroReads, _this.reader.pendingErr, _this.bytesRead, mem(_this.buffer)
 //@   loop 0 invariant ReaderOK(_this) && len(_this.buffer) >= count && 0 <= len(dst) && len(dst) <= count && dst.arr == _this.buffer.arr
 //@   loop 0 invariant _this.buffer.off <= dst.off && dst.off + len(dst) == _this.buffer.off + count && dst.off + cap(dst) == _this.buffer.off + cap(_this.buffer)
@@ -93,12 +95,12 @@ package cbe
 
 //@ func (*Reader).ReadBytes
 //@   use RPATH(_this)
-//@   requires 0 <= byteCount && byteCount <= 0x1000000000
+//@   requires 0 <= byteCount
 //@   modifies _this.buffer, alloc
 //@   ensures pos == old(pos) + uint64(byteCount) && _this.bytesRead == old(_this.bytesRead) + uint64(byteCount)
 //@   ensures len(result) == byteCount && result.arr == _this.buffer.arr && result.off == _this.buffer.off
 //@   ensures forall i uint64 :: i < uint64(byteCount) ==> result[i] == in[old(pos)+i]
-//@   xensures inLen - old(pos) < uint64(byteCount) || rfailed || old(_this.bytesRead) + uint64(byteCount) > DocLimit(_this)
+//@   xensures inLen - old(pos) < uint64(byteCount) || rfailed || old(_this.bytesRead) + uint64(byteCount) > DocLimit(_this) || byteCount > 0x8000000000
 
 // Fixed-width little-endian integers.
 //@ func (*Reader).ReadUint16
@@ -121,3 +123,124 @@ package cbe
 //@   ensures pos == old(pos) + 8 && _this.bytesRead == old(_this.bytesRead) + 8
 //@   ensures result == uint64(in[old(pos)]) | uint64(in[old(pos)+1]) << 8 | uint64(in[old(pos)+2]) << 16 | uint64(in[old(pos)+3]) << 24 | uint64(in[old(pos)+4]) << 32 | uint64(in[old(pos)+5]) << 40 | uint64(in[old(pos)+6]) << 48 | uint64(in[old(pos)+7]) << 56
 //@   xensures inLen - old(pos) < 8 || rfailed || old(_this.bytesRead) + 8 > DocLimit(_this)
+
+// ---------------------------------------------------------------------------------------------
+// Decoders of the dependency modules, handed &_this.reader. ASSUMED (not verified): they read
+// only through the reader they are given, one call at a time; they report the number of bytes
+// they consumed; they return an error exactly when a Read returned one. The value contract of the
+// ULEB128 decoder covers groups that fit a uint64; longer groups are left unspecified.
+//@ macro DEPDEC(reader, buffer, n, err)
+//@   requires typeIs(reader, "*cbe.normalizingReader") && NROK(payload(reader, "*cbe.normalizingReader")) && len(buffer) >= 16
+//@   modifies pos, rfailed, zeroReads, payload(reader, "*cbe.normalizingReader").pendingErr, mem(buffer), alloc
+//@   ensures NROK(payload(reader, "*cbe.normalizingReader"))
+//@   ensures 0 <= n && pos == old(pos) + uint64(n)
+//@   ensures err == nil ==> n >= 1
+//@   ensures err == io.EOF ==> pos == inLen && !rfailed
+//@   ensures err != nil && err != io.EOF ==> rfailed
+
+//@ extern github.com/kstenerud/go-uleb128::DecodeWithByteBuffer
+//@   use DEPDEC(reader, buffer, byteCount, err)
+//@   ensures err == io.EOF ==> inLen - old(pos) < cbe.UlebSpan(in, old(pos))
+//@   ensures err == nil && cbe.UlebSmall(in, old(pos)) ==> asBigInt == nil && asUint == cbe.UlebVal(in, old(pos)) && byteCount == int(cbe.UlebSpan(in, old(pos)))
+
+//@ extern github.com/kstenerud/go-compact-float::DecodeWithByteBuffer
+//@   use DEPDEC(reader, buffer, bytesDecoded, err)
+//@ extern github.com/kstenerud/go-compact-time::DecodeDateWithBuffer
+//@   use DEPDEC(reader, buffer, bytesDecoded, err)
+//@ extern github.com/kstenerud/go-compact-time::DecodeTimeWithBuffer
+//@   use DEPDEC(reader, buffer, bytesDecoded, err)
+//@ extern github.com/kstenerud/go-compact-time::DecodeTimestampWithBuffer
+//@   use DEPDEC(reader, buffer, bytesDecoded, err)
+
+//@ func (*Reader).readSmallULEB128
+//@   use RPATH(_this)
+//@   modifies alloc
+//@   ensures pos > old(pos) && pos - old(pos) == _this.bytesRead - old(_this.bytesRead) && result <= maxValue
+//@   ensures cbe.UlebSmall(in, old(pos)) ==> result == cbe.UlebVal(in, old(pos)) && pos == old(pos) + cbe.UlebSpan(in, old(pos))
+//@   xensures rfailed || inLen - old(pos) < cbe.UlebSpan(in, old(pos)) || old(_this.bytesRead) + cbe.UlebSpan(in, old(pos)) > DocLimit(_this) || !cbe.UlebSmall(in, old(pos)) || cbe.UlebVal(in, old(pos)) > maxValue
+
+//@ func (*Reader).ReadVersion
+//@   use RPATH(_this)
+//@   modifies alloc
+//@   ensures pos > old(pos) && pos - old(pos) == _this.bytesRead - old(_this.bytesRead)
+//@   ensures cbe.UlebSmall(in, old(pos)) ==> result == cbe.UlebVal(in, old(pos)) && pos == old(pos) + cbe.UlebSpan(in, old(pos))
+//@   xensures rfailed || inLen - old(pos) < cbe.UlebSpan(in, old(pos)) || old(_this.bytesRead) + cbe.UlebSpan(in, old(pos)) > DocLimit(_this) || !cbe.UlebSmall(in, old(pos))
+
+//@ func (*Reader).ReadArrayChunkHeader
+//@   use RPATH(_this)
+//@   modifies alloc
+//@   ensures pos > old(pos) && pos - old(pos) == _this.bytesRead - old(_this.bytesRead)
+//@   ensures cbe.UlebSmall(in, old(pos)) ==> elementCount == cbe.UlebVal(in, old(pos)) >> 1 && moreChunksFollow == (cbe.UlebVal(in, old(pos)) & 1 == 1) && pos == old(pos) + cbe.UlebSpan(in, old(pos))
+//@   xensures rfailed || inLen - old(pos) < cbe.UlebSpan(in, old(pos)) || old(_this.bytesRead) + cbe.UlebSpan(in, old(pos)) > DocLimit(_this) || !cbe.UlebSmall(in, old(pos))
+
+//@ func (*Reader).ReadIdentifier
+//@   use RPATH(_this)
+//@   modifies _this.buffer, alloc
+//@   ensures pos > old(pos) && pos - old(pos) == _this.bytesRead - old(_this.bytesRead)
+//@   ensures 1 <= len(result) && len(result) <= 100000 && result.arr == _this.buffer.arr && result.off == _this.buffer.off
+//@   ensures cbe.UlebSmall(in, old(pos)) ==> uint64(len(result)) == cbe.UlebVal(in, old(pos)) && pos == old(pos) + cbe.UlebSpan(in, old(pos)) + uint64(len(result))
+//@   ensures forall i uint64 :: i < uint64(len(result)) ==> result[i] == in[pos - uint64(len(result)) + i]
+//@   ensures cbe.UlebSmall(in, old(pos)) ==> forall i uint64 :: i < cbe.UlebVal(in, old(pos)) ==> result[i] == in[old(pos) + cbe.UlebSpan(in, old(pos)) + i]
+//@   xensures rfailed || !cbe.UlebSmall(in, old(pos)) || cbe.UlebVal(in, old(pos)) > 100000 || cbe.UlebVal(in, old(pos)) == 0 || inLen - old(pos) < cbe.UlebSpan(in, old(pos)) + cbe.UlebVal(in, old(pos)) || old(_this.bytesRead) + cbe.UlebSpan(in, old(pos)) + cbe.UlebVal(in, old(pos)) > DocLimit(_this)
+
+//@ func (*Reader).ReadFloat16
+//@   use RPATH(_this)
+//@   modifies _this.buffer, alloc
+//@   ensures pos == old(pos) + 2 && _this.bytesRead == old(_this.bytesRead) + 2
+//@   let w = uint32(in[old(pos)]) | uint32(in[old(pos)+1]) << 8
+//@   ensures !(w & 0x7f80 == 0x7f80 && w & 0x7f != 0) ==> bits(result) == w << 16
+//@   ensures w & 0x7f80 == 0x7f80 && w & 0x7f != 0 ==> isNaN(result) && ((bits(result) & 0x400000 != 0) == (w & 0x40 != 0))
+//@   xensures inLen - old(pos) < 2 || rfailed || old(_this.bytesRead) + 2 > DocLimit(_this)
+
+//@ func (*Reader).ReadFloat32
+//@   use RPATH(_this)
+//@   modifies _this.buffer, alloc
+//@   ensures pos == old(pos) + 4 && _this.bytesRead == old(_this.bytesRead) + 4
+//@   ensures bits(result) == uint32(in[old(pos)]) | uint32(in[old(pos)+1]) << 8 | uint32(in[old(pos)+2]) << 16 | uint32(in[old(pos)+3]) << 24
+//@   xensures inLen - old(pos) < 4 || rfailed || old(_this.bytesRead) + 4 > DocLimit(_this)
+
+//@ func (*Reader).ReadFloat64
+//@   use RPATH(_this)
+//@   modifies _this.buffer, alloc
+//@   ensures pos == old(pos) + 8 && _this.bytesRead == old(_this.bytesRead) + 8
+//@   ensures bits(result) == uint64(in[old(pos)]) | uint64(in[old(pos)+1]) << 8 | uint64(in[old(pos)+2]) << 16 | uint64(in[old(pos)+3]) << 24 | uint64(in[old(pos)+4]) << 32 | uint64(in[old(pos)+5]) << 40 | uint64(in[old(pos)+6]) << 48 | uint64(in[old(pos)+7]) << 56
+//@   xensures inLen - old(pos) < 8 || rfailed || old(_this.bytesRead) + 8 > DocLimit(_this)
+
+//@ func (*Reader).ReadDecimalFloat
+//@   use RPATH(_this)
+//@   modifies alloc
+//@   ensures pos > old(pos) && pos - old(pos) == _this.bytesRead - old(_this.bytesRead)
+//@   xensures true
+//@ func (*Reader).ReadDate
+//@   use RPATH(_this)
+//@   modifies alloc
+//@   ensures pos > old(pos) && pos - old(pos) == _this.bytesRead - old(_this.bytesRead)
+//@   xensures true
+//@ func (*Reader).ReadTime
+//@   use RPATH(_this)
+//@   modifies alloc
+//@   ensures pos > old(pos) && pos - old(pos) == _this.bytesRead - old(_this.bytesRead)
+//@   xensures true
+//@ func (*Reader).ReadTimestamp
+//@   use RPATH(_this)
+//@   modifies alloc
+//@   ensures pos > old(pos) && pos - old(pos) == _this.bytesRead - old(_this.bytesRead)
+//@   xensures true
+
+// Unsigned integer with a length prefix: up to 8 bytes give a uint64 (little endian), more give a
+// big.Int whose low word is the first 8 bytes.
+//@ func (*Reader).ReadUint
+//@   use RPATH(_this)
+//@   modifies _this.buffer, alloc, bigNeg, bigIs64, bigLo, bigHi
+//@   let p0 = old(pos)
+//@   ensures pos > old(pos) && pos - old(pos) == _this.bytesRead - old(_this.bytesRead)
+//@   ensures cbe.UlebSmall(in, p0) ==> pos == p0 + cbe.UlebSpan(in, p0) + cbe.UlebVal(in, p0)
+//@   ensures cbe.UlebSmall(in, p0) && cbe.UlebVal(in, p0) <= 8 ==> asBig == nil && asUint == cbe.LEVal(in, p0 + cbe.UlebSpan(in, p0), cbe.UlebVal(in, p0))
+//@   ensures cbe.UlebSmall(in, p0) && cbe.UlebVal(in, p0) > 8 ==> asBig != nil && fresh(asBig) && !bigNeg[uint64(asBig)] && bigLo[uint64(asBig)] == cbe.LEVal(in, p0 + cbe.UlebSpan(in, p0), 8)
+//@   xensures rfailed || !cbe.UlebSmall(in, old(pos)) || cbe.UlebVal(in, old(pos)) > 1024 || inLen - old(pos) < cbe.UlebSpan(in, old(pos)) + cbe.UlebVal(in, old(pos)) || old(_this.bytesRead) + cbe.UlebSpan(in, old(pos)) + cbe.UlebVal(in, old(pos)) > DocLimit(_this)
+//@   loop 0 unroll 8
+//@   loop 1 modifies mem(words)
+//@   loop 1 invariant 0 <= iByte && iByte <= len(bytes) && 0 <= iWord && iWord <= iByte && (iByte == 8*iWord || iByte == len(bytes)) && iByte <= 8*iWord
+//@   loop 1 invariant iWord > 0 ==> uint64(words[0]) == (uint64(bytes[0]) | uint64(bytes[1]) << 8 | uint64(bytes[2]) << 16 | uint64(bytes[3]) << 24 | uint64(bytes[4]) << 32 | uint64(bytes[5]) << 40 | uint64(bytes[6]) << 48 | uint64(bytes[7]) << 56)
+//@   loop 1 decreases len(bytes) - iByte
+//@   loop 2 unroll 8
